@@ -9,10 +9,10 @@ from spec import step_model as M
 PROPERTY = "C10"
 BOUNDS = {
     "quick": "inductive step: pre-state = node a (id sym [10,99]) unknown / known without child / known with child, node b (id sym, distinct) unknown, outstanding-request marker for a and for b symbolic; one event from node a or b of 11 kinds (set on known/unknown child, req, stream, battery, sketch name, sketch version, heartbeat response, discover response, child presentation, node presentation) with a symbolic write-fault bit; 5 versions. Episodes: 2-event histories over {a,b} x {set, node presentation, child presentation} x fault bit (2.0, 2.2, 1.5)",
-    "thorough": "as quick plus 3-event histories over {a,b} x {set, battery, node presentation, child presentation} x fault bit on all five versions",
+    "thorough": "as quick plus 3-event histories over {a,b} x {set, node presentation, child presentation} x fault bit on all five versions",
 }
 REALISED = []
-STUBS = ["RecTransport with write-fault bit (TransportFailedError)", "symbolic maps", "__repr__ -> constant"]
+STUBS = ["RecTransport with write-fault bit (TransportFailedError, or - inductive step - the base TransportError by symbolic choice)", "symbolic maps", "__repr__ -> constant"]
 ASSUMPTIONS = ["marker pre-states are built by inserting the entry a missing-node message leaves behind", "child ids are concrete (3 known, 4 unknown): C10 does not depend on them",
                "a failed request write surfaces as the transport error (the statement only says it does not count as sent)"]
 MUST_REACH = ["request-written", "request-suppressed", "request-failed", "no-request-before-2.0", "episode-ok"]
@@ -41,8 +41,9 @@ def partitions(tier):
         for g in range(3):
             parts.append({"name": "step-%s-g%d" % (v, g), "fn": "sym_step", "version": v, "group": g, "budget": 400 if q else 1500, "cost": 3})
         if not q or v in ("2.0", "2.2", "1.5"):
-            parts.append({"name": "hist-%s" % v, "fn": "sym_hist", "version": v, "steps": 2 if q else 3,
-                          "kinds": HIST_KINDS_Q if q else HIST_KINDS_T, "budget": 500 if q else 3000, "cost": 5})
+            for fa in ((None,) if q else (0, 1)):
+                parts.append({"name": "hist-%s%s" % (v, "" if fa is None else "-from%s" % "ba"[fa]), "fn": "sym_hist", "version": v, "steps": 2 if q else 3,
+                              "first_from_a": fa, "kinds": HIST_KINDS_Q, "budget": 500 if q else 3000, "cost": 5})
     return parts
 
 
@@ -50,10 +51,13 @@ def setup(part):
     stub_repr()
 
 
-def _apply(w, inp, ev, fault, tag_acc):
+def _apply(w, inp, ev, fault, tag_acc, base_choice=True):
     from aiomysensors.exceptions import TransportError
 
-    w.tr.fail = (lambda i: (TransportError if inp.bool("fault_base_%d" % len(tag_acc)) else True)) if fault else None
+    if base_choice:
+        w.tr.fail = (lambda i: (TransportError if inp.bool("fault_base_%d" % len(tag_acc)) else True)) if fault else None
+    else:
+        w.tr.fail = (lambda i: True) if fault else None
     before_markers = len(w.st.markers)
     kind, val, writes = w.feed(M.line(*ev))
     out, mwrites = M.step(w.st, *ev, conv=("ok", 55 if ev[4] == 0 else 10), fail_write=fault)
@@ -110,9 +114,9 @@ def sym_hist(inp, part):
     tags = []
     names = []
     for i in range(part["steps"]):
-        n = a if inp.bool("from_a%d" % i) else b
+        n = a if (bool(part["first_from_a"]) if (i == 0 and part.get("first_from_a") is not None) else inp.bool("from_a%d" % i)) else b
         name, mk = KINDS[part["kinds"][inp.pick("kind%d" % i, len(part["kinds"]))]]
         fault = inp.bool("fault%d" % i)
-        _apply(w, inp, mk(n), fault, tags)
+        _apply(w, inp, mk(n), fault, tags, base_choice=False)
         names.append(name)
     return ["episode-ok", names]
